@@ -4,6 +4,7 @@ import Gk.DrvMut
 import Gk.DrvCron
 import Gk.DrvDisp
 import Gk.DrvPool
+import Gk.DrvSched
 open Gk
 
 /-- `gkdriver <family>`: reads trace lines on stdin, prints `L<n> DIFF …` / `L<n> MON …` lines and a
@@ -98,6 +99,21 @@ partial def loopPool (h : IO.FS.Stream) (s : DrvPool.S) (n hist nt bad : Nat) : 
     for o in outs do IO.println s!"L{n + 1} {o}"
     loopPool h s' (n + 1) hist nt (bad + outs.length)
 
+partial def loopSched (h : IO.FS.Stream) (s : DrvSched.S) (n hist nt bad : Nat) : IO Unit := do
+  let line ← h.getLine
+  if line.isEmpty then
+    IO.println s!"SUMMARY family=sched lines={n} histories={hist} nontrivial={nt} ops={s.ops} flagged={bad}"
+    return
+  let toks := Proto.tokens line
+  match toks with
+  | [] => loopSched h s (n + 1) hist nt bad
+  | ["end"] => loopSched h s (n + 1) (hist + 1) (nt + (if s.nontrivial then 1 else 0)) bad
+  | _ =>
+    let (req, resp) := Proto.splitArrow toks
+    let (s', outs) := DrvSched.stepLine s req resp
+    for o in outs do IO.println s!"L{n + 1} {o}"
+    loopSched h s' (n + 1) hist nt (bad + outs.length)
+
 def main (args : List String) : IO UInt32 := do
   let stdin ← IO.getStdin
   match args with
@@ -107,4 +123,5 @@ def main (args : List String) : IO UInt32 := do
   | ["cron"] => loopCron stdin {} 0 0 0 0; return 0
   | ["disp"] => loopDisp stdin {} 0 0 0; return 0
   | ["pool"] => loopPool stdin {} 0 0 0 0; return 0
+  | ["sched"] => loopSched stdin {} 0 0 0 0; return 0
   | _ => IO.eprintln "usage: gkdriver repo"; return 2
